@@ -31,8 +31,9 @@ macro W4() = forall p addr, i int {nxt(kid(p, i))} {prv(kid(p, i))} :: (0 <= i &
    (nxt(kid(p, i)) == (i + 1 < klen(p) ? kid(p, i + 1) : nil) && prv(kid(p, i)) == (i > 0 ? kid(p, i - 1) : nil))
 macro W5() = forall p addr {klen(p)} :: p != nil ==> (fst(p) == (klen(p) > 0 ? kid(p, 0) : nil) && lst(p) == (klen(p) > 0 ? kid(p, klen(p) - 1) : nil))
 macro W6() = forall v addr {par(v)} :: (v != nil && par(v) == nil) ==> (nxt(v) == nil && prv(v) == nil)
+macro W7() = forall p addr, i int {kid(p, i)} :: (0 <= i && i < klen(p)) ==> int(ifptr(kid(p, i))) < allocbound()
 macro W0() = klen(nil) == 0 && par(nil) == nil && nxt(nil) == nil && prv(nil) == nil
-macro WF() = W0() && W1() && W2() && W3() && W4() && W5() && W6()
+macro WF() = W0() && W1() && W2() && W3() && W4() && W5() && W6() && W7()
 
 // ---- accessors: interface contracts (all implementations are BaseNode's promoted methods) ----
 iface ast.Node.Parent
@@ -117,6 +118,7 @@ func (*BaseNode).RemoveChild
   ensures [W4] W4()
   ensures [W5] W5()
   ensures [W6] W6()
+  ensures [W7] W7()
   ensures [isolated] old(par(v)) == self ==> (par(v) == nil && nxt(v) == nil && prv(v) == nil)
   ensures [parents] forall w addr {par(w)} :: w != v ==> par(w) == old(par(w))
   ensures [noop] old(par(v)) != self ==> (par(v) == old(par(v)) && nxt(v) == old(nxt(v)) && prv(v) == old(prv(v)))
@@ -163,6 +165,7 @@ func (*BaseNode).AppendChild
   ensures [W4] W4()
   ensures [W5] W5()
   ensures [W6] W6()
+  ensures [W7] W7()
   ensures [parent] par(v) == self
   ensures [parents] forall w addr {par(w)} :: w != v ==> par(w) == old(par(w))
   modifies n.childCount, n.firstChild, n.lastChild, bn(v).parent, bn(v).next, bn(v).prev, bn(lst(self)).next,
@@ -194,6 +197,7 @@ func (*BaseNode).InsertBefore
   ensures [W4] W4()
   ensures [W5] W5()
   ensures [W6] W6()
+  ensures [W7] W7()
   ensures [parent] par(insertee) == self
   ensures [before] old(isChild(v1, self)) ==> nxt(insertee) == v1
   ensures [parents] forall w addr {par(w)} :: w != insertee ==> par(w) == old(par(w))
